@@ -1455,6 +1455,15 @@ def np_round(interp, e, mod, args, kwargs):
     return u_fn0("round")(args[0]) if is_symbolic(args[0]) else np.round(args[0])
 
 
+def np_rounding(name):
+    """np.ceil / np.floor: an opaque function of a DIMENSIONLESS argument (Dim.Fn0)"""
+    def h(interp, e, mod, args, kwargs):
+        if kwargs or len(args) != 1:
+            fail(e, f"np.{name} form")
+        return u_fn0(name)(args[0]) if is_symbolic(args[0]) else getattr(np, name)(args[0])
+    return h
+
+
 CALLS = {
     "np.sum": np_sum, "np.mean": np_mean,
     "np.min": np_minmax(vmin, np.min), "np.max": np_minmax(vmax, np.max),
@@ -1463,7 +1472,7 @@ CALLS = {
     "np.sign": np_elem(u_sign, np.sign),
     "np.sin": np_elem(u_fn0("sin"), np.sin), "np.cos": np_elem(u_fn0("cos"), np.cos),
     "np.tan": np_elem(u_fn0("tan"), np.tan), "np.arctan": np_elem(u_fn0("arctan"), np.arctan),
-    "np.log": np_log, "np.arctan2": np_arctan2, "np.round": np_round, "np.mod": np_mod,
+    "np.log": np_log, "np.arctan2": np_arctan2, "np.round": np_round, "np.ceil": np_rounding("ceil"), "np.floor": np_rounding("floor"), "np.mod": np_mod,
     "np.linalg.norm": np_norm, "np.cross": np_cross, "np.linalg.det": np_det, "np.linalg.inv": np_inv,
     "np.matmul": np_matmul, "np.einsum": np_einsum,
     "np.where": np_where, "np.isclose": np_isclose,
